@@ -27,6 +27,9 @@ func num(v tla.Value) int { return int(v.AsNumber()) }
 
 func TestC15LockService(t *testing.T) {
 	rapid.Check(t, func(t *rapid.T) {
+		if vstat.OverBudget() {
+			return
+		}
 		vstat.Case()
 		n := rapid.IntRange(1, 8).Draw(t, "clients")
 		ls := sysbind.NewLockSvc(n,
